@@ -107,6 +107,16 @@ def run(ctx):
              'capped at 59 with every other field kept')
     rep.rule('R12.5', 'normalize_time: naive unchanged, aware -> naive UTC; '
              'parse_isotime inverts isoformat and raises ValueError only')
+    from .c14 import memo_check
+    rep.rule('R12.0', 'clock-dependent helpers and normalize_time are not '
+             'memoised (equal arguments do not imply equal results: the '
+             'clock moves; datetimes differing only in fold compare equal)')
+    for fn in ('normalize_time', 'is_older_than', 'is_newer_than',
+               'is_soon', 'utcnow', 'utcnow_ts', 'marshall_now'):
+        memo_check(rep, 'R12.0', world, MOD, fn,
+                   why='but the result depends on the clock / on the fold '
+                   'of a datetime in a named zone (two occurrences of a '
+                   'repeated wall-clock time compare equal)')
     _clock_sources(ctx)
     _predicates(ctx)
     _normalize(ctx)
@@ -199,6 +209,23 @@ def _predicates(ctx):
                          '%s argument around the exact boundary' % kind,
                          outcomes, {t: grid_t, s: secs, NOW: (BASE,)},
                          oracle, hooks=[_hook])
+            if kind == 'datetime' and not soon:
+                # clock overridden close to the ends of the representable
+                # range: the comparison must still be exact
+                hi = dt.datetime.max - dt.timedelta(seconds=5)
+                lo = dt.datetime.min + dt.timedelta(seconds=5)
+                for now_v, ts, ss in (
+                        (hi, (hi - dt.timedelta(seconds=20),
+                              hi - dt.timedelta(seconds=3), hi),
+                         (0, 10, 3600)),
+                        (lo, (lo + dt.timedelta(seconds=20),
+                              lo + dt.timedelta(seconds=3), lo),
+                         (0, 10, -10, -3600))):
+                    grid_compare(rep, 'R12.2', '%s[%s]' % (fname, kind),
+                                 'clock within seconds of datetime.%s' % (
+                                     'max' if now_v is hi else 'min'),
+                                 outcomes, {t: ts, s: ss, NOW: (now_v,)},
+                                 oracle, hooks=[_hook])
             for o in outcomes:
                 if o.kind == 'return':
                     rep.check('R12.1', '%s:uses-utcnow' % fname,
